@@ -176,7 +176,7 @@ def hydro_cases(draw, force_periodic=None):
         periodic = [draw(st.booleans()) for _ in range(3)]
     else:
         periodic = [force_periodic] * 3
-    sides = [draw(st.sampled_from([1.0, 0.5, 2.0, 1.1])) for _ in range(3)]
+    sides = [draw(st.sampled_from([1.0, 0.5, 2.0, 0.25])) for _ in range(3)]  # dyadic: cell sizes identical across layouts (HLLC is ill-conditioned next to near-vacuum cells)
     anchor = [-s * draw(st.sampled_from([0.5, 0.25, 0.])) for s in sides]
     nb = draw(st.integers(2, 4))
     blocks = [{"origin": [anchor[i] + 0.5 * sides[i] for i in range(3)],
